@@ -12,6 +12,7 @@ def dispatch (name : String) (lines : List String) : Option (List String) :=
   | "funccompile" => some (Sympler.FuncCompile.driver lines)
   | "smartlist" => some (Sympler.SmartList.driver lines)
   | "verlet" => some (Sympler.Verlet.driver lines)
+  | "kernels" => some (Sympler.KernelsDrv.driver lines)
   | "stages" => some (Sympler.Stages.driver lines)
   | _ => none
 
